@@ -13,6 +13,7 @@ mod mapsut;
 mod props;
 mod report;
 mod setsut;
+mod setfaults;
 mod tableprobes;
 mod tablesut;
 mod tablefaults;
